@@ -282,8 +282,8 @@ func probe() {
 		chain("", certNo, kube(bad, "bearer"), xf("10.1.2.3:555"))
 		chain("", certNo, kube(bad, "bearer"), xf("11.1.2.3:555"))
 		chain("spiffe://cluster.local/ns/a/sa/b", certNo, kube(good, "bearer"), xf("10.1.2.3:555")) // ambient flow behind a failing client-cert authenticator
-		chain("spiffe://cluster.local/ns/a/sa/b", certOK, kube(good, "bearer"))                      // the client certificate wins: no pod information, refused
-		chain("", kube(good, "bearer"), xf("host:80"))                                               // never reached: no crash
+		chain("spiffe://cluster.local/ns/a/sa/b", certOK, kube(good, "bearer"))                     // the client certificate wins: no pod information, refused
+		chain("", kube(good, "bearer"), xf("host:80"))                                              // never reached: no crash
 	}
 	// client certificates over a real TLS handshake: roots are scoped by trust domain
 	tlsc := func(issuer, uri string, ints ...string) []string {
